@@ -1185,6 +1185,8 @@ func (s *SelectStatement) Clone() *SelectStatement {
 				RetentionPolicy: s.Target.Measurement.RetentionPolicy,
 				Name:            s.Target.Measurement.Name,
 				Regex:           CloneRegexLiteral(s.Target.Measurement.Regex),
+				IsTarget:        s.Target.Measurement.IsTarget,
+				SystemIterator:  s.Target.Measurement.SystemIterator,
 			},
 		}
 	}
